@@ -406,7 +406,13 @@ fn parse_ops(text: &str) -> Vec<Op> {
         let k = match f[0] { "alloc" => ALLOC, "free" => FREE, "load" => LOAD, "store" => STORE, _ => SIZE };
         let a = pa(f.get(1).copied().unwrap_or("0"));
         let b = pa(f.get(2).copied().unwrap_or("0"));
-        let (v, vsrc) = match f.get(3) { Some(x) => { let n: i64 = x.parse().expect("value int"); (Value::int(n).raw_bits(), x.to_string()) } None => (0, String::new()) };
+        let (v, vsrc) = match f.get(3) {
+            Some(&"null") => (NULL_BITS, "null".to_string()),
+            Some(&"true") => (Value::bool(true).raw_bits(), "true".to_string()),
+            Some(x) if x.starts_with('#') => (x[1..].parse().expect("raw bits"), String::new()),
+            Some(x) if x.contains('.') => (Value::float(x.parse().expect("float")).raw_bits(), x.to_string()),
+            Some(x) => { let n: i64 = x.parse().expect("value int"); (Value::int(n).raw_bits(), x.to_string()) }
+            None => (0, String::new()) };
         Op { k, a, b, v, vsrc, via_fn: f.get(4).map(|x| *x == "fn").unwrap_or(false) }
     }).collect()
 }
@@ -414,7 +420,7 @@ fn parse_ops(text: &str) -> Vec<Op> {
 pub fn replay_text(ops: &[Op]) -> String {
     ops.iter().map(|o| {
         let pa = |a: A| match a { A::I(n) => n.to_string(), A::Null => "null".into(), A::Flt => "flt".into() };
-        format!("{} {} {} {} {}", op_name(o.k), pa(o.a), pa(o.b), if o.vsrc.is_empty() { "0".to_string() } else { o.vsrc.clone() }, if o.via_fn { "fn" } else { "top" })
+        format!("{} {} {} {} {}", op_name(o.k), pa(o.a), pa(o.b), if o.vsrc.is_empty() { format!("#{}", o.v) } else { o.vsrc.clone() }, if o.via_fn { "fn" } else { "top" })
     }).collect::<Vec<_>>().join("; ")
 }
 
@@ -449,7 +455,7 @@ fn main() {
                     let q = format!("QVm {} {} [{}]", if surf == "builtin" { "SBuiltin" } else { "SOpcode" }, max_heap, o.iter().map(|x| coq_op(x, true)).collect::<Vec<_>>().join("; ")); (o, b, f, q) }
                 _ => panic!("unknown surface"),
             };
-            println!("{}\t{}", q, obs.iter().map(|x| x.to_string()).collect::<Vec<_>>().join(" "));
+            println!("{}\t{}\t{}", q, obs.iter().map(|x| x.to_string()).collect::<Vec<_>>().join(" "), replay_text(&ops));
             // only the first step that contradicts the reference: later steps of the same history inherit the damage
             let first = findings.iter().map(|f| f.0).min();
             let mut seen = BTreeSet::new();
